@@ -87,10 +87,17 @@ func gen(r *hv.Rng, i int, tier string) (string, hv.Val) {
 		}
 		kind := 0
 		if r.Chance(1, 25) {
-			kind = r.Range(1, 2)
+			kind = r.Range(1, 7)
 		}
-		steps = append(steps, step(1, id, es, kind, clen))
-		if kind == 0 {
+		wire := kind
+		if r.Chance(1, 10) {
+			wire += 10 // HEADERS + CONTINUATION
+		}
+		steps = append(steps, step(1, id, es, wire, clen))
+		if kind == 7 {
+			next = id // a block rejected by the framer does not use up the stream id
+		}
+		if kind == 0 || kind == 3 {
 			sts = append(sts, &sh{id: id, open: es == 0, alive: true, running: true, win: eff, decl: clen})
 		}
 	}
@@ -235,7 +242,11 @@ func gen(r *hv.Rng, i int, tier string) (string, hv.Val) {
 				conn += s.buf
 				s.buf = 0
 			}
-			steps = append(steps, step(8, s.id, 0, 0, 0))
+			if r.Chance(1, 5) {
+				steps = append(steps, step(10, s.id, 3+r.Intn(3), r.Intn(9), r.Range(1, 9)))
+			} else {
+				steps = append(steps, step(8, s.id, 0, 0, 0))
+			}
 			s.running, s.alive, s.open = false, false, false
 		case k < 94:
 			s := pick(func(s *sh) bool { return s.alive })
